@@ -183,9 +183,17 @@ func c07(args []string) error {
 		run.org.Route(h, pageURI, origin.Resp{Status: 200, Headers: htmlCT, Body: doc})
 		id := fmt.Sprintf("seed-%s-%03d", variant, k)
 		u := run.org.URL(h, pageURI)
-		seeds = append(seeds, Seed{ID: id, Value: u})
+		entry := u
+		if k%3 == 1 {
+			// the page is reached through a redirect from another directory: references resolve against the
+			// URL the document was actually served from, not against the seed's
+			old := fmt.Sprintf("/c7/%s%d/old", variant, k)
+			run.org.Route(h, old, origin.Resp{Status: 302, Location: pageURI})
+			entry = run.org.URL(h, old)
+		}
+		seeds = append(seeds, Seed{ID: id, Value: entry})
 		ids = append(ids, id)
-		run.tr.Emit(map[string]any{"ev": "doc", "id": id, "page": u, "planted": pl})
+		run.tr.Emit(map[string]any{"ev": "doc", "id": id, "page": u, "entry": entry, "planted": pl})
 	}
 	_ = rand.Int
 	if err := run.Preload(seeds); err != nil {
